@@ -103,6 +103,22 @@ PROPS['C19'] = dict(
     not_decided=['Lipschitz bound between two progress values', 'exactness at progress 1 and at vertex lengths (float rounding)'],
 )
 
+PROPS['C06'] = dict(
+    category='other',
+    technique='Kani frame contracts (Err => state equals old state) on the real section line parsers, run on concrete text templates with every numeric conversion replaced by "any value or an error"',
+    level_text='bounded stand-in: for each listed text template the harness covers every value of every numeric field and a rejection at every conversion point after every amount of partial progress; on Err the observable parser state (hit objects, last-object marker, state-held path buffer, pending control-point slots and group time) equals the state before the line',
+    level_note='assumed: std text->number conversion (replaced by nondeterministic results), memchr_aligned == naive search; text shapes outside the templates are not decided; flush_pending_points is used through its Verus-proved contract',
+    verus=[], kani=['support.kc', 'ho_lines.kc', 'tp_lines.kc'],
+    only_prefix=['ho_path_', 'ho_line_', 'tp_line_'],
+    kani_functions=['src/section/hit_objects/decode.rs :: impl HitObjectsState :: fn convert_path_str / fn convert_points / fn point_split',
+                    'src/section/hit_objects/decode.rs :: impl DecodeBeatmap for HitObjects :: fn parse_hit_objects',
+                    'src/section/timing_points/decode.rs :: impl DecodeBeatmap for TimingPoints :: fn parse_timing_points'],
+    explanation='see level_text; per-obligation statements and template lists in coverage.samples[].states / coverage.bounded_checks',
+    trusted_base=COMMON_TRUST + ['contracts/support.kc: nondeterministic stand-ins for <f64|f32|i32|u8 as FromStr>::from_str; naive_memchr for core::slice::memchr::memchr_aligned',
+                                 'SampleBankInfo::convert_sound_type replaced by a marker function in line harnesses (the real one is proved by Verus unit hs)'],
+    assumptions=[], not_decided=['text shapes outside the templates', 'whole-file "as if the line were absent" (needs the driver; the per-line frame contract is the contract-level argument)'],
+)
+
 NOT_APPLICABLE = {
     'C02': 'whole-text round trip through core::fmt float printing and dec2flt: no contract on one function links encode output to decode input, and neither verifier executes fmt/parse on symbolic values; the expressible codec-pair lemmas are decided under C11/C13/C14/C04',
     'C03': 'same as C02 (edited values travel through write! and str::parse); the first-colon rule it singles out is a contract on KeyValue::parse decided under C11',
